@@ -206,11 +206,11 @@ theorem script_runs_steps (cfg : Cfg) (known : List Nat) (r : RunSt) (ops : List
 
 /-- ★ … and their histories satisfy the specification; ids are handed out in increasing order; no reply
     event is received twice. (`pre`: length of the prefix, `cids`: caller IDs of the script's exchanges.) -/
-theorem script_model_sound (cids : List (Nat × Nat)) (pre : Nat) (known : List Nat) (ops : List Op)
+theorem script_model_sound (cids : List (Nat × Nat)) (pre : Nat) (tcp : Bool) (known : List Nat) (ops : List Op)
     (gs : List (List Tok)) :
     let pconns := preRun pre []
     let cfg := scriptCfg cids pconns
-    ∀ s ∈ runStates cfg known ⟨scriptInit pconns, pconns.length, [], [], []⟩ ops gs,
+    ∀ s ∈ runStates cfg known (scriptRun pconns tcp) ops gs,
       spec cfg s.hist = true ∧ (∀ c, (assignedIds c s.hist).Pairwise (· > ·)) ∧
       (∀ e e' k, (e, k) ∈ s.taken → (e', k) ∈ s.taken → e = e') := by
   intro pconns cfg s hs
